@@ -68,6 +68,14 @@ CHECKS = {
             'by function, flatten/canonicalize (lossless mode); KeyPathSet: every operation in every reachable state of '
             'two sets over a 6-path universe against Python sets.',
             BASE_NOTE),
+    'C11': ('E2-enum', 'model_checking',
+            'bounded-exhaustive enumeration of the DNASpec grammar; next_dna walked as a transition system against an independent generator of the valid set; all random_dna choice sequences',
+            'For every spec of the grammar (every distinct x sorted mode, 1-3 choices, 1-4 candidates, conditional '
+            'sub-spaces two deep, 1-2 elements, <= 40 / 200 DNAs) the next_dna chain is compared with an independent '
+            'reference of the constraint-satisfying DNAs (count, space_size, order, no successor); validate / DNA(spec=) / '
+            'use_spec accept every member and reject every one-step corruption; random_dna is executed for every choice '
+            'sequence; Sweeping proposes the same sequence.',
+            BASE_NOTE),
     'C02': ('E1-statespace', 'model_checking',
             'explicit-state BFS to closure over the real pg.List/pg.Dict with a lock-step plain list/dict reference model',
             'Every (reachable content, operation) pair over the list/dict API menu with all indices/slices/steps within '
